@@ -52,16 +52,45 @@ def repo_fingerprint():
     for name in sorted(os.listdir(os.path.join(HARNESS, "inpkg"))):
         with open(os.path.join(HARNESS, "inpkg", name), "rb") as f:
             h.update(f.read())
-    for root, _, files in os.walk(os.path.join(HARNESS, "cmd")):
+    for root, _, files in list(os.walk(os.path.join(HARNESS, "cmd"))) + list(os.walk(os.path.join(HARNESS, "backend"))):
         for name in sorted(files):
             with open(os.path.join(root, name), "rb") as f:
                 h.update(f.read())
     return h.hexdigest()[:16]
 
 
+# textual replacements applied to COPIES of working-tree files (injected through the overlay): the few places
+# where lmd reads the wall clock for its bookkeeping are routed through verifNow(), so that the harness can
+# let time pass.  Every pattern must occur exactly the stated number of times, otherwise the tie is broken.
+CLOCK_PATCHES = {
+    "main.go": [("return float64(time.Now().UnixNano()) / float64(time.Second)", "return float64(verifNow().UnixNano()) / float64(time.Second)", 1)],
+    "datastoreset.go": [("float64(time.Now().Unix()-MinFullScanInterval)", "float64(verifNow().Unix()-MinFullScanInterval)", 1),
+                        ('time.Now().Format("4")', 'verifNow().Format("4")', 1)],
+    "peer.go": [('time.Now().Format("4")', 'verifNow().Format("4")', 2)],
+}
+
+
+class OverlayError(Exception):
+    pass
+
+
 def write_overlay():
-    """overlay.json: every file of harness/inpkg becomes zz_verif_<name> inside the package"""
+    """overlay.json: every file of harness/inpkg becomes zz_verif_<name> inside the package;
+    clock-patched copies replace main.go / datastoreset.go / peer.go"""
     repl = {}
+    odir = os.path.join(BUILD, "overlay")
+    os.makedirs(odir, exist_ok=True)
+    for name, patches in CLOCK_PATCHES.items():
+        src = os.path.join(REPO, "pkg", "lmd", name)
+        text = open(src, encoding="utf-8").read()
+        for old, new, count in patches:
+            if text.count(old) != count:
+                raise OverlayError("clock hook: expected %d occurrence(s) of %r in %s, found %d" % (count, old, name, text.count(old)))
+            text = text.replace(old, new)
+        dst = os.path.join(odir, name)
+        with open(dst, "w", encoding="utf-8") as f:
+            f.write(text)
+        repl[src] = dst
     for name in sorted(os.listdir(os.path.join(HARNESS, "inpkg"))):
         if name.endswith(".go"):
             repl[os.path.join(REPO, "pkg", "lmd", "zz_verif_" + name)] = os.path.join(HARNESS, "inpkg", name)
@@ -84,7 +113,10 @@ def build_harness(race=False):
             if os.path.exists(stale):
                 os.remove(stale)
         shutil.copy(os.path.join(REPO, "pkg", "lmd", "go.sum"), os.path.join(HARNESS, "go.sum"))
-        overlay = write_overlay()
+        try:
+            overlay = write_overlay()
+        except OverlayError as e:
+            return None, str(e)
         cmd = ["go", "build", "-tags", "verif", "-overlay", overlay, "-o", binary]
         env = dict(GOENV)
         if race:
